@@ -9,6 +9,7 @@ Local Open Scope string_scope.
 Definition op_cmd (o : op) : string :=
   match o with
   | OIncr => "incr" | OGetSet _ => "getset" | OSetNX _ => "setnx" | OGet => "get" | OSet _ => "set" | ODel => "del"
+  | OSetIfAbsent _ => "set" | OSetIfPresent _ => "set"
   | OHIncrBy _ => "hincrby" | OHGet => "hget"
   | OLPush _ => "lpush" | OLPop => "lpop" | OLLen => "llen" | OLDump => "lrange"
   | OSAdd _ => "sadd" | OSRem _ => "srem" | OSCard => "scard" | OSDump => "smembers"
